@@ -172,6 +172,15 @@ pub mod elliptic_curve {
         pub use super::super::traits::AffineCoordinates;
         /// marker only: the stub's `AffinePoint::decompress` is inherent
         pub trait DecompressPoint {}
+        /// BIP-340 lift_x as k256 exposes it: the even-y point with the given x-coordinate
+        pub trait DecompactPoint: Sized {
+            fn decompact(x: &super::super::FieldBytes) -> super::super::CtOption<Self>;
+        }
+        impl DecompactPoint for super::super::AffinePoint {
+            fn decompact(x: &super::super::FieldBytes) -> super::super::CtOption<Self> {
+                super::super::AffinePoint::decompress(x, super::super::Choice(false))
+            }
+        }
     }
     pub mod sec1 {
         pub use super::super::traits::{FromSec1Point, ToSec1Point};
